@@ -91,6 +91,12 @@ def base_grid(tier, monitors, gregory_only=False, meek_only=False, symtie=False,
             if want(rule):
                 jobs.append(job(rule, {'arithmetic': 'fixed', 'precision': 3, 'omega': 2}, 4, 3, 3, 4 if quick else 5, monitors, B, symtie=symtie,
                                 lines=l3, weight=6))
+    if not meek_only and want('scotland'):
+        # ties at the third stage or later whose earlier stages order the tied candidates differently (rules 49(2)/51(2))
+        import itertools as _it2
+        l3s = [' '.join(map(str, p)) for p in _it2.permutations(range(1, 5), 3)] + ['1', '2', '3', '4']
+        jobs.append(job('scotland', {}, 4, 2, 3, 5, monitors, B, symtie=symtie, lines=l3s, weight=6))
+    if not gregory_only:
         if want('meek-prf'):
             for seats in (1, 2):
                 jobs.append(job('meek-prf', {}, 3, seats, 3, (5 if quick else 6), monitors, B, symtie=symtie, weight=4))
